@@ -19,6 +19,7 @@ import (
 	"strconv"
 	"strings"
 	"sync"
+	"sync/atomic"
 	"testing"
 	"time"
 
@@ -203,10 +204,26 @@ var rawEnd = []opSpec{
 	{req: AReq{Op: "oversize", Bad: "none"}, frame: []byte{255, 255, 255, 255, 11}},
 }
 
+var bigLeft atomic.Int32 // oversized (16 MiB) requests still allowed in this execution
+var stormMode atomic.Bool // keyring storm: only operations on the key list
+
 func genOp(rng *rand.Rand, kind string, keys []string, tag string, allowBig bool) opSpec {
 	kp := Pool()
 	k := keys[rng.Intn(len(keys))]
 	none := "none"
+	if stormMode.Load() {
+		switch x := rng.Intn(100); {
+		case x < 35:
+			return opSpec{req: AReq{Op: "add", K: k, S: "c" + tag, Bad: none}}
+		case x < 62:
+			return opSpec{req: AReq{Op: "remove", K: k, Bad: none}}
+		case x < 67:
+			return opSpec{req: AReq{Op: "removeall", Bad: none}}
+		case x < 92 || kind != "direct":
+			return opSpec{req: AReq{Op: "list", Bad: none}}
+		}
+		return opSpec{req: AReq{Op: "signers", Bad: none}}
+	}
 	switch x := rng.Intn(100); {
 	case x < 22:
 		bad, life := none, 0
@@ -230,7 +247,7 @@ func genOp(rng *rand.Rand, kind string, keys []string, tag string, allowBig bool
 		if kp[k].Kind == "rsa" || kp[k].Kind == "rsa-cert" {
 			n = []int{0, 2, 4}[rng.Intn(3)]
 		}
-		if allowBig && rng.Intn(12) == 0 {
+		if allowBig && (kind == "serial" || kind == "pipelined") && rng.Intn(6) == 0 && bigLeft.Add(-1) >= 0 {
 			return opSpec{req: AReq{Op: "oversize", K: k, Bad: none}, big: true}
 		}
 		return opSpec{req: AReq{Op: "sign", K: k, S: "d" + tag, N: n, Bad: none}}
@@ -248,13 +265,20 @@ func genOp(rng *rand.Rand, kind string, keys []string, tag string, allowBig bool
 func runCallers(t *testing.T, lg *Log, rng *rand.Rand, eps []*endpoint, keys []string, maxCallers, maxOps int, allowBig bool, mid func()) {
 	var wg sync.WaitGroup
 	var midOnce sync.Once
+	start := make(chan struct{}) // all callers start together
 	for _, ep := range eps {
 		nc := 1 + rng.Intn(maxCallers)
 		if ep.kind == "raw" {
 			nc = 1
 		}
+		if stormMode.Load() {
+			nc = maxCallers
+		}
 		for p := 1; p <= nc; p++ {
 			nops := 2 + rng.Intn(maxOps-1)
+			if stormMode.Load() {
+				nops = maxOps
+			}
 			var ops []opSpec
 			for i := 0; i < nops; i++ {
 				tag := fmt.Sprintf("%d.%d.%d", ep.c, p, i)
@@ -272,6 +296,7 @@ func runCallers(t *testing.T, lg *Log, rng *rand.Rand, eps []*endpoint, keys []s
 			go func(ep *endpoint, p int, ops []opSpec) {
 				defer wg.Done()
 				r := rand.New(rand.NewSource(seed))
+				<-start
 				for i, o := range ops {
 					yield(r)
 					if mid != nil && i == len(ops)/2 && ep.c == 1 && p == 1 {
@@ -289,6 +314,7 @@ func runCallers(t *testing.T, lg *Log, rng *rand.Rand, eps []*endpoint, keys []s
 			}(ep, p, ops)
 		}
 	}
+	close(start)
 	wg.Wait()
 }
 
@@ -313,17 +339,26 @@ var finalProbe = []opSpec{{req: AReq{Op: "unlock", S: "p", Bad: "none"}}, {req: 
 	{req: AReq{Op: "list", Bad: "none"}}, {req: AReq{Op: "signers", Bad: "none"}}}
 
 // one recorded execution over in-memory connections
-func concurrentRound(t *testing.T, round int, rng *rand.Rand, allowBig bool) (events []map[string]any, wires map[int]*wireRec, ok bool) {
+func concurrentRound(t *testing.T, round int, rng *rand.Rand, allowBig bool, storm bool) (events []map[string]any, wires map[int]*wireRec, ok bool) {
 	lg := &Log{}
 	kr := agent.NewKeyring()
 	var srvWG sync.WaitGroup
+	bigLeft.Store(1)
 	nconn := 2 + rng.Intn(3)
 	kinds := []string{"serial", "pipelined", "raw", "direct"}
+	if storm {
+		// keyring storm: many direct callers and one pipelined connection hammer a few keys (atomicity of
+		// Add / Remove / RemoveAll against List and Signers under keyring.mu)
+		nconn, kinds = 3, []string{"direct", "direct", "pipelined"}
+	}
 	var eps []*endpoint
 	wires = map[int]*wireRec{}
 	real := false
 	for c := 1; c <= nconn; c++ {
 		kind := kinds[rng.Intn(len(kinds))]
+		if storm {
+			kind = kinds[c-1]
+		}
 		if c == nconn && !real {
 			kind = []string{"serial", "pipelined"}[rng.Intn(2)]
 		}
@@ -339,9 +374,9 @@ func concurrentRound(t *testing.T, round int, rng *rand.Rand, allowBig bool) (ev
 			ep.close = func() { conn.Close() }
 			switch kind {
 			case "serial":
-				ep.api = agent.NewClient(noCloser{conn})
+				ep.api = agent.NewClient(noCloser{&jitter{conn: conn}})
 			case "pipelined":
-				ep.api = agent.NewClient(conn)
+				ep.api = agent.NewClient(&jitter{conn: conn})
 			case "raw":
 				ep.raw = conn
 			}
@@ -352,8 +387,13 @@ func concurrentRound(t *testing.T, round int, rng *rand.Rand, allowBig bool) (ev
 	names := Names()
 	rng.Shuffle(len(names), func(i, j int) { names[i], names[j] = names[j], names[i] })
 	keys := names[:2+rng.Intn(2)]
-	fin := waitOrDump(t, "callers", 60*time.Second, func() {
-		runCallers(t, lg, rng, eps, keys, 3, 4, allowBig, nil)
+	maxOps := 4
+	if storm {
+		keys, maxOps = []string{"ed1", "ed2", "ec1", "ed1c"}, 10
+	}
+	stormMode.Store(storm)
+	fin := waitOrDump(t, "callers", 240*time.Second, func() {
+		runCallers(t, lg, rng, eps, keys, 3, maxOps, allowBig, nil)
 		// the final state, seen directly
 		lg.Conn(6, false)
 		fe := &endpoint{c: 6, kind: "direct", api: kr.(agent.ExtendedAgent)}
@@ -388,7 +428,7 @@ func TestConcurrent(t *testing.T) {
 	ops, bigs := 0, 0
 	for r := 0; r < rounds; r++ {
 		rng := vutil.Rand(int64(6000 + r))
-		ev, _, ok := concurrentRound(t, r, rng, r%5 == 4)
+		ev, _, ok := concurrentRound(t, r, rng, r%6 == 5, r%4 == 3)
 		if !ok {
 			classifyHang(t, out, "concurrent", r, ev)
 			return
@@ -413,31 +453,44 @@ func TestConcurrent(t *testing.T) {
 	out.Extra["x06_oversized_requests_sent"] = bigs
 }
 
-// a watchdog fired: a verdict only when the dump shows goroutines blocked inside ssh/agent
+// a watchdog fired: a verdict only when NO goroutine can run (nothing runnable / running / in a syscall besides the
+// watchdog itself) and a caller is still inside an API call (or a raw peer still waits for its reply): that call can
+// never return (W6).  A slow machine -- something can still run -- is exit 2.
 func classifyHang(t *testing.T, out *vutil.Out, what string, round int, ev []map[string]any) {
 	var blocked []string
-	for _, g := range strings.Split(hangDump, "\n\n") {
-		if strings.Contains(g, "golang.org/x/crypto/ssh/agent.") && !strings.Contains(g, "[running]") {
+	busy := 0
+	for i, g := range strings.Split(hangDump, "\n\n") {
+		hdr := g
+		if j := strings.IndexByte(g, '\n'); j > 0 {
+			hdr = g[:j]
+		}
+		if i > 0 && (strings.Contains(hdr, "[runnable") || strings.Contains(hdr, "[running") || strings.Contains(hdr, "[syscall") || strings.Contains(hdr, "[sleep")) {
+			busy++
+		}
+		// a CALLER that never returned: its stack goes through the harness's doAPI / doRaw
+		if strings.Contains(g, "x06.doAPI") || strings.Contains(g, "x06.doRaw") {
 			blocked = append(blocked, g)
 		}
 	}
-	if len(blocked) > 0 {
-		top := ""
+	if len(blocked) > 0 && busy == 0 {
+		top := "raw-peer-waits-for-reply"
 		for _, ln := range strings.Split(blocked[0], "\n") {
 			if strings.Contains(ln, "ssh/agent.") {
 				top = strings.TrimSpace(ln)
+				if i := strings.LastIndexByte(top, '('); i > 0 {
+					top = top[:i]
+				}
+				top = strings.TrimPrefix(top, "golang.org/x/crypto/ssh/")
 				break
 			}
 		}
-		if i := strings.IndexByte(top, '('); i > 0 {
-			top = top[:i]
-		}
-		out.Violation("x06-hang:"+top, fmt.Sprintf("%s execution %d did not finish within the watchdog; goroutines are blocked inside ssh/agent (%s)", what, round, top),
+		out.Violation("x06-hang:"+top, fmt.Sprintf("%s execution %d did not finish within the watchdog: nothing can run and %d call(s) never returned (W6), blocked in %s", what, round, len(blocked), top),
 			map[string]any{"goroutines": blocked[:min(len(blocked), 6)], "events": ev})
 		t.Errorf("%s execution %d hung inside ssh/agent: %s", what, round, top)
 		return
 	}
-	t.Fatalf("%s execution %d did not finish within the watchdog and no goroutine is blocked inside ssh/agent (slow machine?)\n%s", what, round, hangDump[:min(len(hangDump), 4000)])
+	t.Fatalf("%s execution %d did not finish within the watchdog, but %d goroutines can still run / no caller is inside a call (slow machine)\n%s",
+		what, round, busy, hangDump[:min(len(hangDump), 4000)])
 }
 
 var _ = bytes.Equal
